@@ -25,7 +25,7 @@ ANCHORS = [
 OPS = ["concat0", "concat1", "like", "padded", "nonzero", "where", "subset", "maskidx", "rslice_ra", "rslice_1d", "rslice_2d", "nps"]
 FLOOR_TAGS = ["op:" + o for o in OPS] + ["ends:none", "ends:inside", "ends:negative", "ends:beyond", "where:xy", "where:xs", "mask:allfalse", "mask:alltrue",
                                          "operand:norows", "operand:allempty", "side:left", "side:right", "recv:fresh", "recv:lazyrows", "recv:lazycols+2", "starts:none"]
-FLOOR_MONITORS = ["c08:compare", "inv:ragged"]
+FLOOR_MONITORS = ["c08:compare"]
 N_RANDOM = {"quick": 30000, "thorough": 400000}
 
 
